@@ -89,6 +89,9 @@ var pool = []poolObj{
 // smallPool: the reduced pool for the exhaustive 3-tuple block.
 var smallPool = []string{"nil", "zero", "neg1", "big62", "str", "sym", "keyword", "list3", "dotted", "vector", "hash", "lambda", "in-stream", "values0"}
 
+// quickPool: the quick tier walks every pair of these for every function.
+var quickPool = []string{"nil", "zero", "three", "neg1", "big62", "double", "str", "sym", "keyword", "char", "list3", "dotted", "vector", "hash", "lambda", "in-stream"}
+
 var poolIndex = map[string]*poolObj{}
 
 func init() {
@@ -97,13 +100,6 @@ func init() {
 	}
 }
 
-// setupForms define the helpers the pool refers to; (re-)evaluated in each
-// worker at start and whenever a case has damaged one of them.
-var setupForms = []string{
-	"(defun c09-fn (&rest args) args)",
-	"(defvar c09-var 7)",
-	"(setq c09-var 7)",
-	"(defclass c09-class () ((a :initarg :a :initform 1)))",
-	"(defflavor c09-flavor ((a 1)) () :gettable-instance-variables :settable-instance-variables)",
-	"(defstruct c09-struct a b)",
-}
+// The helpers the pool refers to (c09-fn, c09-var, c09-class, c09-flavor,
+// c09-struct) are defined by setupWorld in c09.go, at worker start and again
+// whenever a case has damaged one of them.
